@@ -245,6 +245,11 @@ _Q = {"coverage.do_coverage|held": 250, "coverage.do_coverage[same-table-any-sch
       "extra:bins-with-coverage:count": 2000, "extra:calls-with-several-chunks": 40, "extra:calls-completing-out-of-submission-order": 5,
       "cli.coverage[file]|held": 5, "cli.coverage[plumbing]|held": 5, "extra:bins-covered-below-2^-20:pileup": 5, "extra:bins-covered-below-2^-20:count": 5}
 QUOTAS = {"quick": _Q, "thorough": {k: v * 8 for k, v in _Q.items()}}
+# the chunk-size override and the delays sit on internals (coverage.to_chunks, _bedcov, _rdc); on a tree that splits and dispatches the regions by
+# another route the schedule-evidence quotas are waived and the clause is decided by the same-table-for-every-worker-count monitor alone
+_SCHED = ["extra:calls-with-several-chunks", "extra:calls-completing-out-of-submission-order"]
+QUOTA_WAIVERS = {k: {"waive": _SCHED, "require": {"coverage.do_coverage[same-table-any-schedule]|held": 150}}
+                 for k in ("injection-unavailable:coverage.to_chunks", "injection-unavailable:coverage._bedcov", "injection-unavailable:coverage._rdc")}
 
 
 def evidence_extra(m, tier):
